@@ -33,9 +33,20 @@ Clause of the property → theorems
   `trace_consistent`, `intervals_tile` (first starts at the initial clock, last ends at the final
   clock, consecutive abut, each > eps, every instant covered exactly once),
   `callbacks_at_boundaries`, `tiling_reaches_target`, `evolveUntil_tiling`; whole histories: `history_conservation`.
-* *the clock ends at T*: `loop_clock`, `evolveUntil_spec`, `history_inv` (`.t_le`, `.lag`).
-* *backwards is refused*: `backwards_refused`, `history_backwards_noop`.
-* *whether or not callbacks remain queued*: `empty_queue_ok`, `empty_queue_raised_before_fix`.
+* *the clock ends at T*: `loop_clock`, `evolveUntil_spec`, `history_inv` (`.t_le`, `.lag`); exactly:
+  `final_clock_exact`, `final_clock_eq_target_iff`, `final_clock_below_target_possible`,
+  `loop_clock_end_any`, `clock_lag_any`.
+* *backwards is refused*: `backwards_refused`, `forwards_not_refused`, `history_backwards_noop`.
+* *whether or not callbacks remain queued*: `empty_queue_ok`, `empty_queue_exact`.
+
+Round 4 (sections at the end of the file): fuel independence (`loop_fuel_mono`, `runOps_fuel_mono`,
+`runOps_fuel_irrelevant`); exactly once for every history, only `InvQ` (`history_invQ`,
+`history_call_exactly_once`, `history_evolve_exactly_once`); divergence and necessity of `WF`
+(`diverges_zero_delay_reinsertion`, `order_needs_wf`); termination of histories
+(`history_terminates_if_progress`); the threshold as a double (`eps_decimal_bridge`);
+callbacks that read the clock — `loopC`/`stepOpC`/`runOpsC` are runs of `loop`/`stepOp`/`runOps`
+(`loopC_exists_kids`, `loopC_transfer`, `loopC_eq_loop_table`, `runOpsC_eq_runOps`); the hypotheses
+decided by the driver (`addsFromB_spec`, `noFuelOutB_spec`, `sortedB_spec`).
 
 Hypotheses used (each has a satisfiability `example` at the end of the file):
 * `Inv s`   — the queue is what `add_callback` builds (sorted, counters unique and below the
@@ -44,7 +55,8 @@ Hypotheses used (each has a satisfiability `example` at the end of the file):
 * progress  — `∀ e c ∈ kids e, e.time + δ ≤ c.1` with `0 < δ`, and `(kids e).length ≤ B`;
 * `AddsFrom (·.hz) kids fuel ops` — every `add_callback` of a history is for a time not before the
               largest target an accepted `evolve_until` was given so far (`(·.s.t)`: the clock);
-* `NoFuelOut kids fuel ops` — every `evolve_until` of the history returns.
+* `NoFuelOut kids fuel ops` — every `evolve_until` of the history returns;
+* `InvQ s`  — `Inv` without "nothing before the clock": reached by every history (`history_invQ`).
 -/
 set_option linter.unusedSimpArgs false
 set_option linter.unusedVariables false
